@@ -39,7 +39,7 @@ const char *C09_CLASSES[] = {"restart-divergence", "dump-differs",
                              "roundtrip-bytes", "restart-failed",
                              "stop-not-honoured", nullptr};
 const char *C12_CLASSES[] = {"crash", "abort", "sanitizer", "hang", "bad-exit",
-                             "missing-output", nullptr};
+                             "missing-output", "memcheck", nullptr};
 const char *C01_CLASSES[] = {"launch-count", "not-all-terminated", "done-count",
                              "leftover", "terminated-twice", "unknown-packet",
                              "packet-duplicated", "packet-after-termination",
@@ -224,7 +224,8 @@ public:
   // KNOWN-FINDING line is printed as long as the finding is present
   std::vector< Json > directed(const std::string &tier) {
     std::vector< Json > v;
-    if (prop == "C12") {
+    const char *vm = getenv("VERIF_MODE");
+    if (prop == "C12" && !(vm && std::string(vm) == "valgrind")) {
       const char *root = getenv("VERIF_ROOT");
       const std::string path =
           std::string(root ? root : "/verif") + "/directed/C12-cooling-nan.json";
@@ -384,6 +385,15 @@ public:
       c.feedback = c.source_type == 3 && r.chance(0.5);
       c.backups = (int)r.range(0, 3);
       c.threads = std::min(c.threads, 6);
+      const char *vm = getenv("VERIF_MODE");
+      if (vm && std::string(vm) == "valgrind") {
+        // memcheck part: about 50x slower, and without UBSan the known
+        // cooling-table finding would show up as an unattributable SIGSEGV
+        c.cooling = false;
+        c.threads = std::min(c.threads, 3);
+        c.steps = std::min(c.steps, 2);
+        c.packets = std::min(c.packets, 150l);
+      }
     }
     c.seed = (int)r.range(1, 100000);
     c.sched = Sched::draw(r, 3000000ull);
@@ -425,6 +435,7 @@ public:
       IL.record_segments = false;
     }
     BothLedgers both(L, IL);
+    valgrind_mark();
     run_begin(c.sched, prop == "C01" ? (Listener *)&both : (Listener *)&L);
     int rc = -1;
     bool finished = guarded([&]() {
@@ -451,7 +462,13 @@ public:
     RunStats rs = run_end();
 
     std::string vclass, message;
-    if (prop == "C01" && IL.failed) {
+    std::string vgtext;
+    const long vgerrors = valgrind_report(vgtext);
+    if (vgerrors > 0) {
+      vclass = "memcheck";
+      message = sfmt("memcheck reported %ld error(s) during the run; first: ",
+                     vgerrors) + vgtext;
+    } else if (prop == "C01" && IL.failed) {
       vclass = IL.violation.vclass;
       message = "radiation step of hydro step " + std::to_string(L.step + 1) +
                 ": " + IL.violation.message;
@@ -614,6 +631,15 @@ public:
              "ownership, no buffer / queue entry / outgoing buffer left, task "
              "slots in use == persistent hydro tasks + temperature tasks of "
              "earlier iterations";
+    else if (prop == "C12" && getenv("VERIF_MODE") &&
+             std::string(getenv("VERIF_MODE")) == "valgrind")
+      what = "memcheck part of C12 (task-based RHD mode): the whole check "
+             "runs under valgrind memcheck; after every simulated run "
+             "(optional components as in the sanitizer part, without "
+             "radiative cooling - its known table-index finding would be an "
+             "unattributable SIGSEGV here -, at most 2 steps and 3 threads) "
+             "the engine asks memcheck whether it reported a use of "
+             "uninitialised memory or an invalid access during that run";
     else if (prop == "C12")
       what = "sanitizer part of C12 (task-based RHD mode): runs built with "
              "AddressSanitizer + UndefinedBehaviorSanitizer, widened over "
